@@ -15,7 +15,12 @@ def _mk(kind, Rc, Rx, regime):
         dx, dy = w.size(Dx), w.size(Dy)
         h = SP.gen_cond_handle(w, kind, "c", Rc, Dy, Dx)
         p_x, px = SP.gen_pdf(w, "x", Rx, Dx)
+        from .common import fresh_result, params_unchanged, snapshot as _snap
+        spx_, sc_ = _snap(p_x), _snap(h.obj)
         joint = h.call("affine_joint_transformation", p_x)              # REAL
+        fresh_result(w, "frame/result-is-a-new-object", joint, p_x, h.obj)
+        params_unchanged(w, "frame/prior-unchanged", p_x, spx_, ("Sigma", "mu", "Lambda", "nu", "ln_beta", "ln_det_Sigma", "lnZ"))
+        params_unchanged(w, "frame/conditional-unchanged", h.obj, sc_, ("M", "b", "Sigma", "Lambda", "ln_det_Sigma"))
         rc = 1 if Rc == 1 else w.size(Rc)
         rx = 1 if Rx == 1 else w.size(Rx)
         R = rc * rx
